@@ -187,15 +187,26 @@ fn names(ts: &TypeSpace) -> Value {
 }
 
 fn item_names(file: &syn::File) -> Vec<String> {
-    file.items
-        .iter()
-        .filter_map(|it| match it {
-            syn::Item::Struct(s) => Some(s.ident.to_string()),
-            syn::Item::Enum(e) => Some(e.ident.to_string()),
-            syn::Item::Type(t) => Some(t.ident.to_string()),
-            _ => None,
-        })
-        .collect()
+    fn walk(prefix: &str, items: &[syn::Item], out: &mut Vec<String>) {
+        for it in items {
+            match it {
+                syn::Item::Struct(s) => out.push(format!("{}{}", prefix, s.ident)),
+                syn::Item::Enum(e) => out.push(format!("{}{}", prefix, e.ident)),
+                syn::Item::Type(t) => out.push(format!("{}{}", prefix, t.ident)),
+                // the shared default functions (`pub mod defaults`) and the builder / error modules are definitions too
+                syn::Item::Fn(f) if !prefix.is_empty() => out.push(format!("{}{}", prefix, f.sig.ident)),
+                syn::Item::Mod(m) => {
+                    if let Some((_, inner)) = &m.content {
+                        walk(&format!("{}{}::", prefix, m.ident), inner, out);
+                    }
+                }
+                _ => {}
+            }
+        }
+    }
+    let mut out = Vec::new();
+    walk("", &file.items, &mut out);
+    out
 }
 
 fn handle(line: &str) -> String {
